@@ -62,6 +62,9 @@ STATEMENT_STATUS = {
     "C01_spec_complete": "proved: the executable ISO reader Spec/Syntax.spellcheck accepts every well-formed spelled tree "
         "(odd hex included) with exactly the values used in the theorems; ESC_STRING / white space / digit tables of "
         "psparser.py proved equal to the ISO ones on the way",
+    "C01_sequence_nesting / C01_sequence_roundtrip_partial": "proved: several top-level objects read by successive "
+        "nextobject() calls (held-back integers, PSEOF hand-out) come out exactly once and in order, end to end from the "
+        "bytes at every buffer size",
     "not proved": "the converse (everything spellcheck accepts is a spelled tree of the family); the stream hand-off of "
         "PDFParser.do_keyword is modelled (Model/ObjParser.lean) and tied by correspondence only",
 }
@@ -685,6 +688,9 @@ def run_corpus(ctx: C.Ctx, batch: Batch, seen: Set[str]) -> None:
 def replay(ctx: C.Ctx, doc, batch: Optional[Batch] = None, origin: str = "replay", seen: Optional[Set[str]] = None):
     own = batch is None
     batch = batch or Batch(ctx)
+    if "pdf" in doc.get("input", {}):
+        replay_multi(ctx, doc)
+        return
     spelling, exp, reader, bufsiz, pad, trail, eol = from_json(doc["input"])
     feats = doc["input"].get("features", [])
     sizes = [bufsiz] if origin == "replay" else SIZES
@@ -696,9 +702,39 @@ def replay(ctx: C.Ctx, doc, batch: Optional[Batch] = None, origin: str = "replay
                                dict(doc["input"], bufsiz=b), exp, got,
                                {"min_features": feats, "reader": reader, "bufsiz": b}))
             break
-    batch.add("spec.spell " + C.hx(spelling), "spec.spell", doc["input"], exp)
+    if "sequence" in feats:
+        if "k:" not in exp:
+            batch.add("spec.seq " + C.hx(spelling), "spec.seq", doc["input"], exp)
+    else:
+        batch.add("spec.spell " + C.hx(spelling), "spec.spell", doc["input"], exp)
     if own:
         batch.flush()
+
+
+def replay_multi(ctx: C.Ctx, doc) -> None:
+    from pdfminer.pdfdocument import PDFDocument
+    from pdfminer.pdfparser import PDFParser
+    from pdfminer.psparser import PSBaseParser
+    inp = doc["input"]
+    pdf = bytes.fromhex(inp["pdf"])
+    old = PSBaseParser.BUFSIZ
+    PSBaseParser.BUFSIZ = int(inp["bufsiz"])
+    try:
+        d = PDFDocument(PDFParser(BytesIO(pdf)))
+        got = None
+        for pos_, i in enumerate(inp["order"]):
+            try:
+                g = canon_impl(d.getobj(5 + i))
+            except BaseException as e:  # noqa: BLE001
+                g = "!" + type(e).__name__
+            if pos_ == inp["fetch"]:
+                got = g
+    finally:
+        PSBaseParser.BUFSIZ = old
+    ctx.case((pdf, "replay-multi"), True, branch="origin:replay")
+    if got != doc["expected"]:
+        ctx.fail(C.Failure(doc.get("what", "multi getobj"), inp, doc["expected"], got,
+                           {"min_features": ["multi_getobj"], "reader": "getobj"}))
 
 
 def run(ctx: C.Ctx) -> None:
@@ -723,6 +759,8 @@ def _run(ctx: C.Ctx) -> None:
     for value, feats in enumerate_features(rng):
         for _ in range(2):
             check_case(ctx, batch, make_case(rng, value, feats), "enum", seen)
+    for _ in range(60):
+        check_sequence(ctx, batch, rng, seen)
     for i in range(ctx.n(12000, 400000)):
         if not ctx.time_left():
             break
@@ -734,6 +772,10 @@ def _run(ctx: C.Ctx) -> None:
             check_mutant(ctx, batch, make_case(rng, value, feats, "stream"), rng)
         if i % 10 == 0:
             check_stream_object(ctx, batch, rng)
+        if i % 3 == 0:
+            check_sequence(ctx, batch, rng, seen)
+        if i % 12 == 0:
+            check_multi_getobj(ctx, batch, rng, seen)
         if len(batch.req) > 100000:
             batch.flush()
     batch.flush()
@@ -767,6 +809,191 @@ def check_stream_object(ctx: C.Ctx, batch: Batch, rng) -> None:
              sample={"object": repr(body), "bufsiz": bufsiz})
     batch.add("model.getobj %d 5 %s" % (bufsiz, C.hx(pdf[off:])), "model.getobj",
               {"object": body.hex(), "ascii": repr(body), "bufsiz": bufsiz, "eol": eol.hex()}, got)
+
+
+def check_multi_getobj(ctx: C.Ctx, batch: Batch, rng, seen_fail: Set[str]) -> None:
+    """Several indirect objects of ONE document fetched in arbitrary order (some twice) through the same
+    PDFDocument / PDFParser: the parser is re-positioned by seek() for every object, so tokenizer and operand
+    stack state left over from the previous object must not leak into the next one."""
+    from pdfminer.pdfdocument import PDFDocument
+    from pdfminer.pdfparser import PDFParser
+    from pdfminer.psparser import PSBaseParser
+    k = rng.choice([2, 3, 3])
+    vals = [gen_tree(rng, rng.randint(0, 3), [15]) for _ in range(k)]
+    feats = rng.sample(ALL_FEATURES, rng.randint(0, 6))
+    feats = [f for f in feats if f not in ("odd_hex", "eof_end")]
+    sp = Speller(rng, feats)
+    spellings = []
+    for v in vals:
+        sx = sp.spell(v)
+        # some objects end in the middle of what would be a token for a tokenizer that is not reset
+        trail = sp.ws1()
+        spellings.append(sx + trail)
+    eol = rng.choice([b"\n", b"\r\n"])
+    objs = {1: {"Type": "Catalog", "Pages": W.Ref(2)}, 2: {"Type": "Pages", "Kids": [], "Count": 0}}
+    for i, sx in enumerate(spellings):
+        objs[5 + i] = W.Raw(sx)
+    pdf = W.build_pdf(objs, 1, eol=eol)
+    order = [rng.randrange(k) for _ in range(k + 2)]
+    bufsiz = rng.choice(SIZES)
+    old = PSBaseParser.BUFSIZ
+    PSBaseParser.BUFSIZ = bufsiz
+    got = []
+    try:
+        try:
+            doc = PDFDocument(PDFParser(BytesIO(pdf)))
+            doc.caching = rng.random() < 0.5
+            for i in order:
+                try:
+                    got.append(canon_impl(doc.getobj(5 + i)))
+                except BaseException as e:  # noqa: BLE001
+                    if isinstance(e, LEX.Watchdog):
+                        raise
+                    got.append("!" + type(e).__name__)
+        except BaseException as e:  # noqa: BLE001
+            if isinstance(e, LEX.Watchdog):
+                raise
+            got = ["!" + type(e).__name__] * len(order)
+    finally:
+        PSBaseParser.BUFSIZ = old
+    ctx.case((pdf, tuple(order), bufsiz), True, branch="reader:getobj-multi",
+             sample={"objects": [repr(x) for x in spellings], "order": order, "bufsiz": bufsiz})
+    for pos_, i in enumerate(order):
+        exp = canon(vals[i])
+        if got[pos_] != exp:
+            ctx.branch("fail")
+            key = "multi-getobj"
+            if key in seen_fail:
+                return
+            seen_fail.add(key)
+            ctx.fail(C.Failure("an object fetched after other objects of the same document does not read back as its value",
+                               {"pdf": pdf.hex(), "order": order, "objects": [x.hex() for x in spellings],
+                                "ascii": [repr(x) for x in spellings], "bufsiz": bufsiz, "fetch": pos_},
+                               exp, got[pos_], {"min_features": ["multi_getobj"] + sorted(sp.used), "reader": "getobj",
+                                                "bufsiz": bufsiz, "kind": "multi"}))
+            return
+    for i, sx in enumerate(spellings):
+        off = pdf.index(b"%d 0 obj" % (5 + i))
+        batch.add("model.getobj %d %d %s" % (bufsiz, 5 + i, C.hx(pdf[off:])), "model.getobj",
+                  {"object": sx.hex(), "ascii": repr(sx), "bufsiz": bufsiz}, canon(vals[i]))
+
+
+OPERATORS = [b"cm", b"Tj", b"re", b"BT", b"ET", b"q", b"Q", b"Do", b"TJ", b"gs", b"W*", b"b*", b"'", b'"', b"BDC"]
+
+
+def gen_sequence(rng) -> List[Any]:
+    """Several top-level objects in a row, as in a content or object stream: the reader is called again and
+    again and carries its operand stack / results queue from one call to the next.  Integer-heavy, with every
+    kind of ending (0..3 trailing integers, a reference, an operator, a container)."""
+    n = rng.choice([1, 2, 2, 3, 3, 4, 6, 9])
+    out = []
+    for _ in range(n):
+        r = rng.random()
+        if r < 0.45:
+            out.append(("int", rng.choice([0, 1, 2, 3, 7, 65535, -4, rng.randint(-999, 99999)])))
+        elif r < 0.55:
+            out.append(("ref", rng.randint(1, 999), rng.choice([0, 0, 3])))
+        elif r < 0.65:
+            out.append(("op", rng.choice(OPERATORS)))
+        elif r < 0.8:
+            out.append(gen_tree(rng, 2, [8]))
+        else:
+            out.append(gen_scalar(rng))
+    tail = rng.random()
+    if tail < 0.35:
+        out += [("int", rng.randint(0, 9)) for _ in range(rng.choice([1, 2, 2, 3]))]
+    elif tail < 0.45:
+        out.append(("ref", rng.randint(1, 99), 0))
+    elif tail < 0.55:
+        out.append(("op", rng.choice(OPERATORS)))
+    return out
+
+
+def canon_seq(values) -> str:
+    return " | ".join("k:" + C.hx(v[1]) if v[0] == "op" else canon(v) for v in values) if values else "<nothing>"
+
+
+def spell_sequence(sp: "Speller", values) -> bytes:
+    parts = [v[1] if v[0] == "op" else sp.spell(v) for v in values]
+    out = bytearray()
+    prev = b"["          # a delimiter: nothing is required in front of the first object
+    for p_ in parts:
+        need = prev[-1:] not in b"()<>[]{}" and p_[:1] not in b"()<>[]{}/%"
+        if p_[:1] in (b"'", b'"') or prev[-1:] in (b"'", b'"', b"*"):
+            need = True                       # these operators are runs of regular characters as well
+        out += sp.gap(bool(need)) if out else b""
+        out += p_
+        prev = p_
+    return bytes(out)
+
+
+def run_sequence(values, feats, rng_seed: str, plain: bool = False):
+    import random
+    r = random.Random(rng_seed)
+    sp = Speller(r, feats)
+    data = spell_sequence(sp, values)
+    pad = b"" if plain else make_pad(r, r.choice([0, 0, 1, 3, 8, r.randint(0, 40)]))
+    trail = b"" if plain else r.choice([b"", b"", b" ", b"\n", b"%c\n", b"\r\n "])
+    bufsiz = 4096 if plain and r.random() < 0.5 else r.choice(SIZES)
+    full = pad + data + trail
+    return full, bufsiz, sorted(sp.used), read_stream(full, bufsiz)
+
+
+def check_sequence(ctx: C.Ctx, batch: Batch, rng, seen_fail: Set[str]) -> None:
+    values = gen_sequence(rng)
+    feats = ALL_FEATURES if rng.random() < 0.5 else rng.sample(ALL_FEATURES, rng.randint(0, 3))
+    feats = [f for f in feats if f not in ("odd_hex", "eof_end")]
+    seed = "seq/%d" % rng.getrandbits(48)
+    full, bufsiz, used, got = run_sequence(values, feats, seed)
+    exp = canon_seq(values)
+    ints_at_end = 0
+    for v in reversed(values):
+        if v[0] != "int":
+            break
+        ints_at_end += 1
+    ctx.case((full, "sequence", bufsiz), len(values) > 1, branch="reader:sequence",
+             sample={"data": full.hex(), "ascii": repr(full), "expected": exp, "bufsiz": bufsiz})
+    ctx.branch("seq:trailing-ints:%d" % min(ints_at_end, 3))
+    ctx.branch("seq:len:%d" % min(len(values), 6))
+    if got != exp:
+        ctx.branch("fail")
+        key = "sequence/" + str(min(ints_at_end, 3))
+        if key in seen_fail:
+            return
+        seen_fail.add(key)
+        # shrink: drop objects while the sequence still reads back wrongly
+        def still(sub):
+            for t in range(6):
+                f2, b2, u2, g2 = run_sequence(sub, feats, "%s/%d" % (seed, t))
+                if g2 != canon_seq(sub):
+                    return True
+            return False
+        small = C.ddmin(list(values), still, max_tests=120) if len(values) > 1 else values
+        chosen = None
+        for t in range(12):
+            f2, b2, u2, g2 = run_sequence(small, [], "%s/p%d" % (seed, t), plain=True)
+            if g2 != canon_seq(small):
+                chosen = (f2, b2, [], g2)
+                break
+        if chosen is None:
+            for t in range(12):
+                f2, b2, u2, g2 = run_sequence(small, feats, "%s/%d" % (seed, t))
+                if g2 != canon_seq(small):
+                    chosen = (f2, b2, u2, g2)
+                    break
+        if chosen is None:
+            small, chosen = values, (full, bufsiz, used, got)
+        f2, b2, u2, g2 = chosen
+        ctx.fail(C.Failure("a sequence of conformant spellings does not read back as its values, in order",
+                           {"spelling": f2.hex(), "ascii": repr(f2), "expected": canon_seq(small), "reader": "stream",
+                            "bufsiz": b2, "pad": "", "trail": "", "eol": "0a", "features": ["sequence"] + list(u2)},
+                           canon_seq(small), g2,
+                           {"min_features": ["sequence"] + list(u2), "reader": "stream", "bufsiz": b2, "kind": "sequence"}))
+        return
+    batch.add("model.obj %d %s" % (bufsiz, C.hx(full)), "model.obj",
+              {"data": full.hex(), "ascii": repr(full), "bufsiz": bufsiz, "sequence": True}, got)
+    if not any(v[0] == "op" for v in values):
+        batch.add("spec.seq " + C.hx(full), "spec.seq", {"data": full.hex(), "ascii": repr(full)}, exp)
 
 
 def check_mutant(ctx: C.Ctx, batch: Batch, case: Case, rng) -> None:
